@@ -1,5 +1,8 @@
 import StorageModel.Query.Objectz
 import StorageModel.Query.Spec
+import StorageModel.Query.Providers
+import StorageModel.Query.Resolve
+import StorageModel.Query.TreeQueries
 import StorageModel.Generated.PagingFacts
 /-
   Line protocol of the C02 / C19 drivers (see /verif/harness/c02.go, c19.go, c02_c19_common.go for
@@ -8,12 +11,48 @@ import StorageModel.Generated.PagingFacts
 namespace StorageModel.Query.Wire
 open StorageModel StorageModel.Query
 
+/-- `store.symbols` of the harness store "things": the six typed fields, the set symbol `roles`, the
+    fk symbol `owner` (a plain string symbol holding the owner's id) and `a`, registered with
+    `NodeTypeAnyType` (a type `newRowComparator` has no comparator for) -/
 def wireSchema : Schema :=
   [("id", ⟨.string, false⟩), ("b", ⟨.bool, false⟩), ("i", ⟨.int64, false⟩), ("n", ⟨.int64, false⟩),
-   ("f", ⟨.float64, false⟩), ("s", ⟨.string, false⟩), ("t", ⟨.datetime, false⟩), ("roles", ⟨.string, true⟩)]
+   ("f", ⟨.float64, false⟩), ("s", ⟨.string, false⟩), ("t", ⟨.datetime, false⟩), ("roles", ⟨.string, true⟩),
+   ("owner", ⟨.string, false⟩), ("a", ⟨.other, false⟩)]
+
+/-- the child stores were granted the parent's symbols and add their own `code` -/
+def childSchema : Schema := wireSchema ++ [("code", ⟨.string, false⟩)]
+
+def schemaOf (store : String) : Schema := if store == "root" then wireSchema else childSchema
+
+/-- the symbol tables `GetSymbol` walks: "things" (root / child / ext) with the map symbol `tags` and the
+    link `owner` → "owners"; "owners" with `label` and the fk set symbol `things` → "things" -/
+def wireStores : Stores :=
+  let things (sch : Schema) : SymTables := { symbols := sch, maps := [("tags", .other)], links := [("owner", "owners")] }
+  [("root", things wireSchema), ("child", things childSchema), ("ext", things childSchema),
+   ("owners", { symbols := [("id", ⟨.string, false⟩), ("label", ⟨.string, false⟩), ("things", ⟨.string, true⟩)],
+                maps := [], links := [("things", "root")] })]
 
 def objSymbolsDecl : List (String × SymType) :=
   [("id", .string), ("b", .bool), ("i", .int64), ("n", .int64), ("f", .float64), ("s", .string), ("t", .datetime)]
+
+/-- the object stores the harness builds over one collection: `full` (every Add…Symbol kind), `sub` (only id, s, i),
+    `noid` (everything but the id symbol) -/
+def objDeclOf (variant : String) : List (String × SymType) :=
+  if variant == "sub" then [("id", .string), ("s", .string), ("i", .int64)]
+  else if variant == "noid" then objSymbolsDecl.filter (·.1 != "id")
+  else objSymbolsDecl
+
+/-- the typing `ast.Parse` imposes on an atom of the fragment: the symbol is known and the constant has its type -/
+def atomTyped (decl : List (String × SymType)) : Filter → Bool
+  | .tt => true
+  | .cmpBool n _ _ => decl.lookup n == some .bool
+  | .cmpInt n _ _ => decl.lookup n == some .int64
+  | .cmpFloat n _ _ => decl.lookup n == some .float64
+  | .cmpStr n _ _ => decl.lookup n == some .string
+  | .cmpTime n _ _ => decl.lookup n == some .datetime
+  | .isNull n | .notNull n => match decl.lookup n with | some t => t != .other | none => false
+  | .and a b | .or a b => atomTyped decl a && atomTyped decl b
+  | .not a => atomTyped decl a
 
 def hexNat (s : String) : Option Nat :=
   s.toList.foldlM (fun acc c => (Bytes.hexVal c).map (fun v => acc * 16 + v)) 0
@@ -29,22 +68,53 @@ structure WRow where
   roles : List String
   /-- "" root only, "1" plain child data, "2" extended child data -/
   child : String := ""
+  /-- id of the owner the row's fk `owner` points to ("" = none) -/
+  owner : String := ""
+
+/-- a typed field token: `N` | `B0`/`B1` | `I<int64>` | `J<int32>` | `F<16 hex>x<hex of the FormatFloat text>` |
+    `S<hex>` | `T<unix ns>` — the stored type travels with the value, whatever column it sits in -/
+def typedTok (tok : String) : Option Stored :=
+  let body := (tok.drop 1).toString
+  if tok == "N" then some .nil
+  else if tok.startsWith "B" then some (.bool (body == "1"))
+  else if tok.startsWith "I" then body.toInt?.map .int64
+  else if tok.startsWith "J" then body.toInt?.map .int32
+  else if tok.startsWith "F" then
+    match body.splitOn "x" with
+    | [bits, text] => do
+      let b ← hexNat bits
+      let t ← Bytes.ofHex (if text.isEmpty then "-" else text)
+      pure (.float64 b t)
+    | _ => none
+  else if tok.startsWith "S" then (strTok tok).map .string
+  else if tok.startsWith "T" then body.toInt?.map .time
+  else none
+
+/-- a column token: the positional (untyped) form of the column, or a typed token -/
+def colTok (positional : String → Option Stored) (tok : String) : Option Stored :=
+  match tok.toList.head? with
+  | some c => if c == 'N' || c == 'B' || c == 'I' || c == 'J' || c == 'F' || c == 'S' || c == 'T' then typedTok tok
+              else positional tok
+  | none => none
 
 def parseRow (s : String) : Option WRow :=
   let toks := s.splitOn ","
-  let child := match toks with
-    | [_, _, _, _, _, _, _, _, c] => (c.drop 1).toString
-    | _ => ""
+  let child := match toks[8]? with
+    | some c => (c.drop 1).toString
+    | none => ""
+  let owner := match toks[9]? with
+    | some o => (o.drop 1).toString
+    | none => ""
   match toks.take 8 with
   | [id, b, i, n, f, st, t, roles] => do
-    let fb : Stored ← if b == "N" then some .nil else some (.bool (b == "1"))
-    let fi : Stored ← if i == "N" then some .nil else i.toInt?.map .int64
-    let fn : Stored ← if n == "N" then some .nil else n.toInt?.map .int32
-    let ff : Stored ← if f == "N" then some .nil else (hexNat f).map .float64
-    let fs : Stored ← if st == "N" then some .nil else (strTok st).map .string
-    let ft : Stored ← if t == "N" then some .nil else t.toInt?.map .time
+    let fb : Stored ← colTok (fun b => some (.bool (b == "1"))) b
+    let fi : Stored ← colTok (fun i => i.toInt?.map .int64) i
+    let fn : Stored ← colTok (fun n => n.toInt?.map .int32) n
+    let ff : Stored ← colTok (fun f => (hexNat f).map (.float64 · [])) f
+    let fs : Stored ← colTok (fun _ => none) st
+    let ft : Stored ← colTok (fun t => t.toInt?.map .time) t
     let rs := if roles.length ≤ 1 then [] else ((roles.drop 1).toString).splitOn "."
-    pure ⟨⟨asciiBytes id, [("b", fb), ("i", fi), ("n", fn), ("f", ff), ("s", fs), ("t", ft)]⟩, rs, child⟩
+    pure ⟨⟨asciiBytes id, [("b", fb), ("i", fi), ("n", fn), ("f", ff), ("s", fs), ("t", ft)]⟩, rs, child, owner⟩
   | _ => none
 
 /-- dataset token: `-` no bucket, `0` empty bucket -/
@@ -57,7 +127,9 @@ def parseOp : String → Option CmpOp
   | "eq" => some .eq | "ne" => some .ne | "lt" => some .lt | "le" => some .le | "gt" => some .gt | "ge" => some .ge
   | _ => none
 
-def parseFilter (s : String) : Option Filter :=
+/-- an atom token: `true` | `null.<f>` | `notnull.<f>` | `cmp.<f>.<op>.<const>` (the constant is read with the
+    type of the harness field `f`; an unknown field name takes a string constant) -/
+def parseAtom (s : String) : Option Filter :=
   match s.splitOn "." with
   | ["true"] => some .tt
   | ["null", f] => some (.isNull f)
@@ -68,9 +140,35 @@ def parseFilter (s : String) : Option Filter :=
     | "b" => some (.cmpBool f op (c == "1"))
     | "i" | "n" => c.toInt?.map (.cmpInt f op)
     | "f" => (hexNat c).map (.cmpFloat f op)
-    | "s" | "id" => (strTok c).map (.cmpStr f op)
     | "t" => c.toInt?.map (.cmpTime f op)
-    | _ => none
+    | _ => (strTok c).map (.cmpStr f op)
+  | _ => none
+
+/-- prefix notation over `~`-separated tokens: `and~A~B`, `or~A~B`, `not~A`, atoms -/
+def parsePrefix : Nat → List String → Option (Filter × List String)
+  | 0, _ => none
+  | _, [] => none
+  | fuel + 1, tok :: rest =>
+    if tok == "and" || tok == "or" then do
+      let (a, r1) ← parsePrefix fuel rest
+      let (b, r2) ← parsePrefix fuel r1
+      pure (if tok == "and" then .and a b else .or a b, r2)
+    else if tok == "not" then do
+      let (a, r1) ← parsePrefix fuel rest
+      pure (.not a, r1)
+    else (parseAtom tok).map fun a => (a, rest)
+
+/-- a filter token; `setfn.<fn>.<symbol>` (a set function applied to a symbol: `anyOf(s) = "a"`, `count(s) > 0`,
+    `isEmpty(s)`, …) is kept aside: it is no filter of the fragment -/
+def parseFilter (s : String) : Option Filter :=
+  let toks := s.splitOn "~"
+  match parsePrefix (toks.length + 1) toks with
+  | some (f, []) => some f
+  | _ => none
+
+def parseSetFn (s : String) : Option (String × String) :=
+  match s.splitOn "." with
+  | ["setfn", fn, sym] => some (fn, sym)
   | _ => none
 
 def parseSort (s : String) : Option (List SortField) :=
@@ -91,51 +189,71 @@ def parseLimit (s : String) : Option (Option LimitTok) :=
   if s == "none" then some (some .none_)
   else (parseNum s).map fun o => o.map .num
 
+/-- cursor provider token: `all.<v>..` / `any.<v>..` (0, 1 or more values, duplicates allowed),
+    `val.<v>` (setIndex.OpenValueCursor), `rel.<owner>` (GetRelatedEntitiesCursor over the owner's
+    back-reference list), `nil` (a provider returning nil) -/
+inductive ProvTok where
+  | all (vs : List String)
+  | any (vs : List String)
+  | val (v : String)
+  | rel (o : String)
+  | nil
+  deriving Repr, Inhabited
+
 structure Case where
   rows : Option (List WRow)
   filter : Filter
   sort : List SortField
   skip : Option NumTok
   limit : Option LimitTok
-  prov : Option (Bool × List String)     -- (isAllOf, values)
+  prov : Option ProvTok
   seek : Option Bytes
   /-- root | child | ext -/
   store : String := "root"
+  /-- the filter is a set function applied to this symbol (then `filter` is `tt`) -/
+  setFn : Option (String × String) := none
 
-def parseProv (s : String) : Option (Option (Bool × List String)) :=
+def parseProv (s : String) : Option (Option ProvTok) :=
   if s == "-" then some none
   else match s.splitOn "." with
-    | "all" :: vs => some (some (true, vs))
-    | "any" :: vs => some (some (false, vs))
+    | "all" :: vs => some (some (.all vs))
+    | "any" :: vs => some (some (.any vs))
+    | ["val", v] => some (some (.val v))
+    | ["rel", o] => some (some (.rel o))
+    | ["nil"] => some (some .nil)
     | _ => none
 
 def parseCase (toks : List String) : Option Case :=
   match toks with
   | [rows, filter, sort, skip, limit, prov, seek] => do
     let rows ← parseRows rows
-    let filter ← parseFilter filter
+    let setFn := parseSetFn filter
+    let filter ← if setFn.isSome then some .tt else parseFilter filter
     let sort ← parseSort sort
     let skip ← parseNum skip
     let limit ← parseLimit limit
     let prov ← parseProv prov
     let seek ← if seek == "-" then some none else (strTok seek).map some
-    pure ⟨rows, filter, sort, skip, limit, prov, seek, "root"⟩
+    pure ⟨rows, filter, sort, skip, limit, prov, seek, "root", setFn⟩
   | [rows, filter, sort, skip, limit, prov, seek, store] =>
     (parseCase [rows, filter, sort, skip, limit, prov, seek]).map fun c => { c with store := store }
   | _ => none
 
-/-- what `ast.Parse` rejects in the sort clause: unknown symbols and set symbols -/
-def sortParses (schema : Schema) (sort : List SortField) : Bool :=
-  sort.all fun f => match schema.lookup f.name with
-    | some info => !info.isSet
-    | none => false
+/-- what `ast.Parse` rejects in the sort clause: symbols `GetSymbol` does not resolve, and set symbols -/
+def sortParses (store : String) (sort : List SortField) : Bool :=
+  sort.all (sortFieldParses wireStores store)
+
+def errKind : SortErr → String
+  | .noSuchField => "err:nosuch"
+  | .invalidSetField => "err:set"
+  | .unsupportedType => "err:type"
 
 def renderIds (rows : List Row) : String := ",".intercalate (rows.map fun r => bytesAscii r.id)
 def renderAnswer (r : List Row × Int) : String := renderIds r.1 ++ "#" ++ toString r.2
 def renderExcept (r : Except SortErr (List Row × Int)) : String :=
   match r with
   | .ok a => renderAnswer a
-  | .error _ => "err"
+  | .error e => errKind e
 
 def renderOpt (o : Option Int) : String := match o with | none => "nil" | some v => toString v
 
@@ -143,13 +261,53 @@ def renderOpt (o : Option Int) : String := match o with | none => "nil" | some v
 def Case.childSkip (c : Case) (r : Row) : Bool :=
   c.store == "child" && !((c.rows.getD []).any fun w => w.row.id == r.id && w.child == "1")
 
-def Case.bolt (c : Case) : BoltStore :=
-  { schema := wireSchema, bucket := c.rows.map fun rs => rs.map (·.row), childSkip := c.childSkip }
+/-- the row as the queried store's symbols read it: the six typed fields, the fk `owner`, and — through
+    a child store — the child's own `code` ("c" in the plain child bucket, "x" in the extended one) -/
+def Case.rowOfW (c : Case) (w : WRow) : Row :=
+  let owner : Stored := if w.owner.isEmpty then .nil else .string (asciiBytes w.owner)
+  let code : Stored :=
+    if c.store == "child" && w.child == "1" then .string (asciiBytes "c")
+    else if c.store == "ext" && w.child == "2" then .string (asciiBytes "x")
+    else .nil
+  { w.row with fields := w.row.fields ++ [("owner", owner), ("code", code)] }
 
-def Case.inProv (c : Case) (p : Bool × List String) (id : Bytes) : Bool :=
+def Case.modelRows (c : Case) : List Row := (c.rows.getD []).map c.rowOfW
+
+def Case.bolt (c : Case) : BoltStore :=
+  { schema := schemaOf c.store, bucket := c.rows.map fun rs => rs.map c.rowOfW, childSkip := c.childSkip }
+
+/-- **specification side**: the entities a provider token selects, read directly off the rows -/
+def Case.inProv (c : Case) (p : ProvTok) (id : Bytes) : Bool :=
   match (c.rows.getD []).find? (fun w => w.row.id == id) with
   | none => false
-  | some w => if p.1 then p.2.all (fun v => w.roles.contains v) else p.2.any (fun v => w.roles.contains v)
+  | some w =>
+    match p with
+    | .all vs => !vs.isEmpty && vs.all (fun v => w.roles.contains v)
+    | .any vs => vs.any (fun v => w.roles.contains v)
+    | .val v => w.roles.contains v
+    | .rel o => w.owner == o
+    | .nil => false
+
+/-- the owners the harness creates -/
+def ownerIds : List String := ["o1", "o2", "o3"]
+
+/-- **model side**: the index tables as the stores keep them for these rows — the set index of
+    `roles` (one bucket per value that occurs) and the back-reference list `things` of every owner -/
+def Case.indexes (c : Case) : Indexes :=
+  let ws := c.rows.getD []
+  let values := (ws.flatMap (·.roles)).eraseDups
+  { valuesOf := fun id => match ws.find? (fun w => w.row.id == id) with
+      | some w => w.roles.map asciiBytes
+      | none => []
+    index := values.map fun v => (asciiBytes v, (ws.filter (·.roles.contains v)).map (·.row.id))
+    related := ownerIds.map fun o => ((asciiBytes o, "things"), (ws.filter (·.owner == o)).map (·.row.id)) }
+
+def ProvTok.provider : ProvTok → Provider
+  | .all vs => iteratorMatchingAllOf (vs.map asciiBytes)
+  | .any vs => iteratorMatchingAnyOf (vs.map asciiBytes)
+  | .val v => .value (asciiBytes v)
+  | .rel o => .related (asciiBytes o) "things"
+  | .nil => .nilCursor
 
 /-- the spec's reading of the skip / limit tokens: `limit none` is "no limit" -/
 def specSkip (skip : Option NumTok) : Option Int := tokSkip skip
